@@ -316,11 +316,15 @@ def run_part(modname, mod, part, tier, seed, log):
         fn = _run_custom_shard
     else:
         raise env.HarnessError("unknown part kind %r" % part.kind)
-    if nshards == 1:
-        results = [fn(jobs[0])]
-    else:
-        with _pool(min(nshards, os.cpu_count() or 1)) as pool:
-            results = pool.map(fn, jobs, chunksize=1)
+    # wall-clock guard against a part that cannot finish (never a verdict: harness error, exit 2)
+    limit = int(os.environ.get("VERIF_PART_TIMEOUT", "1500" if tier == "quick" else "14400"))
+    import multiprocessing as mp
+    with _pool(min(nshards, os.cpu_count() or 1)) as pool:
+        try:
+            results = pool.map_async(fn, jobs, chunksize=1).get(timeout=limit)
+        except mp.TimeoutError:
+            pool.terminate()
+            raise env.HarnessError("part %s of %s did not finish within %d s (inconclusive, not a verdict)" % (part.name, mod.PROPERTY, limit))
     for r in results:
         if "harness_error" in r:
             raise env.HarnessError(r["harness_error"])
